@@ -44,10 +44,18 @@ def strip_last_section(path, fmt, cut_in_key=False):
         lines = data.decode().split("\n")
         i = next(k for k, x in enumerate(lines) if x.strip() == "last_samples")
         j = next(k for k in range(i, len(lines)) if lines[k].strip() == "}")
-        out = "\n".join(lines[:i] + lines[j:]).encode()
+        # (states that have the sections announce them with "sharedData on" among the state parameters: an older state does not)
+        out = "\n".join(x for x in lines[:i] + lines[j:] if x.strip() != "sharedData on").encode()
     else:
         i = data.index(b"last_samples")
         out = data[:i + 3] if cut_in_key else data[:i - 8]
+        kw = b"sharedData on\n"
+        if not cut_in_key and kw in out:
+            # the state parameters are a string with an 8-byte length in front of it, after the keyword "configuration" of the block
+            k = out.index(kw)
+            c = out.rindex(b"configuration", 0, k) + len(b"configuration")
+            n = int.from_bytes(out[c:c + 8], "little")
+            out = out[:c] + (n - len(kw)).to_bytes(8, "little") + out[c + 8:k] + out[k + len(kw):]
     atomic_write(path, out)
 
 
